@@ -285,6 +285,7 @@ def r6(ctx):
 
 
 def run(ctx):
+    scan_rule(ctx, "C04")
     r1(ctx)
     r2(ctx)
     r3(ctx)
